@@ -242,7 +242,10 @@ def run_property(modname, tier, seed, replay=None):
     pid = mod.PID
     rng = random.Random(seed * 1000003 + int(pid[1:]))
     findings = load_findings(pid)
-    open_findings = [e for e in findings if e['status'] == 'open'] + list(getattr(mod, 'PENDING_FINDINGS', []))
+    open_findings = [e for e in findings if e['status'] == 'open']
+    for e in getattr(mod, 'PENDING_FINDINGS', []):      # same entries as known_findings.json (tools/sync_findings.py)
+        if not any(o['signature'] == e['signature'] for o in open_findings):
+            open_findings.append(e)
     lines_out = []
 
     def say(s):
